@@ -166,10 +166,12 @@ class ModuleScan:
         self.tree = ast.parse(open(self.path, encoding="utf8").read(), filename=self.path)
         self.imports = []      # dotted names
         self.uses = []
+        self.enums = []          # directory enumerations whose order reaches the caller: (call text) not directly inside sorted(...)
         self.state = []        # (qualname, kind)
         self.aliases = {}      # local name -> module dotted name (for dual-use attribute tracking)
         self.scan_imports()
         self.scan_uses()
+        self.scan_enumerations()
         self.scan_body(self.tree.body, "", module_level=True)
 
     # ---- imports (any depth)
@@ -193,6 +195,26 @@ class ModuleScan:
                     else:
                         self.imports.append(base + "." + a.name)
                         self.aliases[a.asname or a.name] = base + "." + a.name
+
+    # ---- directory enumerations: their order is the file system's, not the program's
+    ENUM_METHODS = ("rglob", "glob", "iglob", "iterdir", "listdir", "scandir", "walk")
+
+    def scan_enumerations(self):
+        parents = {}
+        for n in ast.walk(self.tree):
+            for c in ast.iter_child_nodes(n):
+                parents[c] = n
+        for n in ast.walk(self.tree):
+            if not isinstance(n, ast.Call):
+                continue
+            f = n.func
+            name = f.attr if isinstance(f, ast.Attribute) else (f.id if isinstance(f, ast.Name) else None)
+            if name not in self.ENUM_METHODS:
+                continue
+            par = parents.get(n)
+            wrapped = (isinstance(par, ast.Call) and isinstance(par.func, ast.Name) and par.func.id == "sorted" and par.args and par.args[0] is n)
+            if not wrapped:
+                self.enums.append("%s:%d" % (name, n.lineno) if False else name)
 
     # ---- uses of dual-use modules and watched builtins
     def scan_uses(self):
@@ -550,10 +572,12 @@ def gen(repo):
     lst("iso_imports", "(string * string)", ["(%s, %s)" % (coq_str(m), coq_str(i)) for m, i in imports])
     lst("iso_uses", "(string * string)", ["(%s, %s)" % (coq_str(m), coq_str(u)) for m, u in uses])
     lst("iso_state", "(string * string * string)", ["(%s, %s, %s)" % (coq_str(m), coq_str(q), coq_str(k)) for m, q, k in state])
+    enums = sorted({(s.mod, e) for s in scans for e in s.enums})
+    lst("iso_unsorted_enumerations", "(string * string)", ["(%s, %s)" % (coq_str(m), coq_str(e)) for m, e in enums])
     for k in ("iso_repo_get", "iso_repo_get_all", "iso_interpret", "iso_helpers"):
         lst(k, "(string * string * string)", ["(%s, %s, %s)" % tuple(coq_str(x) for x in t) for t in shapes[k]])
     meta = {"files": rels, "imports": len(imports), "distinct_imported": sorted({i for _m, i in imports if not i.startswith("simaple")}),
-            "uses": uses, "state": state, "shapes": shapes}
+            "uses": uses, "state": state, "shapes": shapes, "unsorted_enumerations": enums}
     return {"Isolation.v": "\n".join(L)}, meta
 
 
